@@ -19,7 +19,28 @@ def warm_up():
     pass
 
 
+def gen_huge_plan(rng):
+    """Few requests, but each one large in rays x shape x samples (5e6 .. 3e7 complex numbers): where an implementation
+    would switch to a memory-saving path.  The property's own bound on one request is 1e5 samples."""
+    L = rng.choice([16, 32, 64])
+    shape = rng.choice([None, 2, [2, 2], [3, 3], [4, 4]])
+    nshape = 1 if shape is None else int(np.prod(shape))
+    Fd = rng.choice([5.0, 30.0, 100.0])
+    Ts = float(10 ** rng.uniform(-6, -3.5)) / Fd * 10.0
+    target = 10 ** rng.uniform(6.7, 7.5)
+    n = int(max(1, min(100000, target // (L * nshape))))
+    ops = []
+    if rng.random() < 0.5:
+        ops.append({"op": "skip", "n": rng.randint(1, 10 ** 6)})
+    ops.append({"op": "generate", "n": n})
+    if rng.random() < 0.5:
+        ops.append({"op": "generate", "n": rng.randint(1, 50)})
+    return {"world": "jakes", "Fd": Fd, "Ts": Ts, "L": L, "shape": shape, "rs_seed": rng.randrange(1 << 31), "ops": ops, "huge": True}
+
+
 def gen_plan(rng, tier, idx, opts):
+    if rng.random() < opts.get("p_huge", 0.0015):
+        return gen_huge_plan(rng)
     L = rng.choice([1, 2, 4, 8, 8, 16])
     shape = rng.choice([None, None, 1, 2, 3, [2, 2], [3, 2], [1, 4]])
     nshape = 1 if shape is None else int(np.prod(shape))
@@ -84,6 +105,8 @@ def gen_plan(rng, tier, idx, opts):
 
 def model_samples(phi, psi, Fd, Ts, L, k0, n):
     """h(k*Ts) for k = k0 .. k0+n-1 with integer k (no accumulated time)."""
+    if phi.size * n > 2_000_000 and n > 4096:                # bounded memory: the model is evaluated stretch by stretch
+        return np.concatenate([model_samples(phi, psi, Fd, Ts, L, k0 + a, min(4096, n - a)) for a in range(0, n, 4096)], axis=-1)
     k = np.arange(k0, k0 + n, dtype=np.float64)           # exact for k < 2**53
     t = (k * Ts).reshape([1] * (phi.ndim - 1) + [n])
     return np.sqrt(1.0 / L) * np.sum(np.exp(1j * (2 * np.pi * Fd * np.cos(phi) * t + psi)), axis=0)
@@ -258,6 +281,8 @@ def execute(plan):
                         bump(res["probes"], "equal_size_request_while_previous_block_held")
                     last = np.array(s, copy=True)
                     log.add("generate", nn, k, np.round(np.asarray(s).ravel()[:4], 6))
+                    if L * max(1, int(np.prod(base))) * nn > 2 ** 22:
+                        bump(res["probes"], "request_above_4M_ray_samples")
                     if small:
                         bump(res["probes"], "small_request_far_out")
                     if k > 10 ** 9:
